@@ -225,6 +225,11 @@ def ex_eval(e, p):
         return ex_eval(e[1], p).reshape(tuple(e[2]))
     if t == "matmul":
         return ex_eval(e[1], p) @ ex_eval(e[2], p)
+    if t == "exp":
+        return np.exp(ex_eval(e[1], p))
+    if t == "logsumexp":  # over the entries of a vector-valued expression (a lazy reduction over an index)
+        v = ex_eval(e[1], p)
+        return np.asarray(np.logaddexp.reduce(v.reshape(-1)))
     raise ValueError(t)
 
 
@@ -243,7 +248,7 @@ def ex_inputs(e, out=None):
     return out
 
 
-EX_HEADS = {"var", "const", "add", "sub", "mul", "div", "neg", "getitem", "sum", "reshape", "matmul"}
+EX_HEADS = {"var", "const", "add", "sub", "mul", "div", "neg", "getitem", "sum", "reshape", "matmul", "exp", "logsumexp"}
 
 
 def ex_build(e):
@@ -270,6 +275,13 @@ def ex_build(e):
         return ex_build(e[1]).reshape(tuple(e[2]))
     if t == "matmul":
         return ex_build(e[1]) @ ex_build(e[2])
+    if t == "exp":
+        return ex_build(e[1]).exp()
+    if t == "logsumexp":
+        v = ex_build(e[1])
+        n = v.output.shape[0]
+        i = Variable("_lse_i", Bint[n])
+        return v[i].reduce(ops.logaddexp, "_lse_i")
     raise ValueError(t)
 
 
